@@ -216,6 +216,17 @@ def run_persist_history(cfg, steps, path):
     try:
         for idx, st in enumerate(steps):
             k = st[0]
+            if k == "cbraise":
+                # from here on the application's event callback raises (or stops raising)
+                pg.eng.cb_raise = bool(st[1])
+                continue
+            if k == "present-last-id":
+                # the node that was given the most recent id presents itself (nothing to do if none was handed out)
+                if not out["idresp"] or not isinstance(out["idresp"][-1][2], int):
+                    continue
+                st = ["in", f"{out['idresp'][-1][2]};255;0;0;17;{version}"]
+                k = "in"
+                out["presentations_of_handed_out_ids"] = out.get("presentations_of_handed_out_ids", 0) + 1
             if k == "in":
                 known = set(pg.gw.sensors)
                 n0 = len(pg.eng.sent)
